@@ -4,11 +4,12 @@
 // consensus state tree (T-KV / T-Ledger of DESIGN.md §3). Comment-only.
 //
 // Ghost state mirrors what is stored under the staking key formats:
-//   GGen/GActB/GActS/GDebB/GDebS [addr]  stored account fields
-//   GAcctSum = sum over all stored accounts of general + active + debonding balance
-//   GCommon, GGovDep, GLastFees, GSupply  the four stored scalars
-//   GDel[escrow][delegator], GDelSum[escrow]; GDeb[delegator][escrow][epoch], GDebSum[escrow]
-//   GWrites  number of successful tree mutations
+//
+//	GGen/GActB/GActS/GDebB/GDebS [addr]  stored account fields
+//	GAcctSum = sum over all stored accounts of general + active + debonding balance
+//	GCommon, GGovDep, GLastFees, GSupply  the four stored scalars
+//	GDel[escrow][delegator], GDelSum[escrow]; GDeb[delegator][escrow][epoch], GDebSum[escrow]
+//	GWrites  number of successful tree mutations
 package state
 
 //@ import staking "github.com/oasisprotocol/oasis-core/go/staking/api"
@@ -153,11 +154,16 @@ package state
 //@   ensures err != nil ==> result0 == nil
 //@   ensures err == nil ==> fresh(result0)
 //@   ensures err == nil ==> QV(&result0.MinTransactBalance) >= 0 && QV(&result0.CommissionScheduleRules.MinCommissionRate) >= 0 && QV(&result0.MinDelegationAmount) >= 0
+//@   ensures err == nil ==> QV(&result0.FeeSplitWeightPropose) >= 0 && QV(&result0.FeeSplitWeightVote) >= 0 && QV(&result0.FeeSplitWeightNextPropose) >= 0
+//@   ensures err == nil && ufb("feeSplitNotAllZero", s) ==> QV(&result0.FeeSplitWeightPropose) + QV(&result0.FeeSplitWeightVote) + QV(&result0.FeeSplitWeightNextPropose) > 0
+//@   note stored parameters passed ConsensusParameters.SanityCheck (genesis and every parameter change): weights are valid quantities and not all zero
 
 // ---- verified functions ----
 
 //@ func slashPool
-//@   props C05 C15
+//@   props C05 C15 C10
+//@   safety nil bounds div panic
+//@   precall quantity\.Quantity\)\.Quo$ :: quantity.Val(argAs[*quantity.Quantity](0)) > 0
 //@   requires dst != nil && p != nil && amount != nil && total != nil
 //@   requires QV(dst) >= 0 && QV(&p.Balance) >= 0 && QV(amount) >= 0 && QV(total) >= 0
 //@   requires dst != &p.Balance && dst != &p.TotalShares && amount != dst && total != dst && amount != &p.Balance && total != &p.Balance
@@ -211,7 +217,9 @@ package state
 //@   ensures err == nil ==> allocated(result0)
 
 //@ func MutableState.computeCommission
-//@   props C05 C15
+//@   props C05 C15 C10
+//@   safety nil bounds div panic
+//@   precall quantity\.Quantity\)\.Quo$ :: quantity.Val(argAs[*quantity.Quantity](0)) > 0
 //@   requires s != nil && total != nil && QV(total) >= 0 && (rate == nil || QV(rate) >= 0)
 //@   modifies nothing
 //@   ensures err != nil ==> result0 == nil && result1 == nil
